@@ -41,6 +41,9 @@ type Spec struct {
 	NoEALB        bool     // build CJK-containing sets without East Asian line-break handling
 	Only          []string // explicit list of single extensions instead of Ext (see Single*)
 	FootnotePfx   string
+	// Rich builds every extension that has options with non-default options (Linkify with an explicit protocol list,
+	// Footnote with id prefix / titles / classes, Typographer with substitutions, Table with the attribute align method).
+	Rich bool
 }
 
 // Single extension names usable in Spec.Only.
@@ -100,17 +103,38 @@ func (s Spec) Name() string {
 	if s.FootnotePfx != "" {
 		b.WriteString(",fnpfx=" + s.FootnotePfx)
 	}
+	if s.Rich {
+		b.WriteString(",rich")
+	}
 	return b.String()
 }
 
 func (s Spec) table() goldmark.Extender {
+	if s.Rich && !s.PinTableAlign {
+		return extension.NewTable(extension.WithTableCellAlignMethod(extension.TableCellAlignAttribute))
+	}
 	if s.PinTableAlign {
 		return extension.NewTable(extension.WithTableCellAlignMethod(s.TableAlign))
 	}
 	return extension.Table
 }
 
+// FootnoteIDPrefix returns the id prefix the Footnote extension of this configuration is built with.
+func (s Spec) FootnoteIDPrefix() string {
+	if s.Rich && s.FootnotePfx == "" {
+		return "doc-1-"
+	}
+	return s.FootnotePfx
+}
+
 func (s Spec) footnote() goldmark.Extender {
+	if s.Rich {
+		pfx := s.FootnoteIDPrefix()
+		// the prefix is handed over as a byte slice with spare capacity, as a caller that builds it by appending would
+		pb := append(make([]byte, 0, 128), pfx...)
+		return extension.NewFootnote(extension.WithFootnoteIDPrefix(pb), extension.WithFootnoteLinkTitle("note ^^ (%%)"),
+			extension.WithFootnoteBacklinkTitle("back to ^^ (%%)"), extension.WithFootnoteLinkClass("fn-link"), extension.WithFootnoteBacklinkClass("fn-back"))
+	}
 	if s.FootnotePfx != "" {
 		return extension.NewFootnote(extension.WithFootnoteIDPrefix(s.FootnotePfx))
 	}
@@ -128,10 +152,26 @@ func (s Spec) cjk(style extension.EastAsianLineBreaks, esc bool) goldmark.Extend
 	return extension.NewCJK(opts...)
 }
 
+func (s Spec) linkify() goldmark.Extender {
+	if s.Rich {
+		return extension.NewLinkify(extension.WithLinkifyAllowedProtocols([]string{"http:", "https:", "ftp:", "mailto:"}))
+	}
+	return extension.Linkify
+}
+
+func (s Spec) typographer() goldmark.Extender {
+	if s.Rich {
+		return extension.NewTypographer(extension.WithTypographicSubstitutions(map[extension.TypographicPunctuation]string{
+			extension.LeftDoubleQuote: "&laquo;", extension.RightDoubleQuote: "&raquo;", extension.Ellipsis: "&hellip;",
+		}))
+	}
+	return extension.Typographer
+}
+
 func (s Spec) single(name string) goldmark.Extender {
 	switch name {
 	case SLinkify:
-		return extension.Linkify
+		return s.linkify()
 	case STable:
 		return s.table()
 	case SStrikethrough:
@@ -143,7 +183,7 @@ func (s Spec) single(name string) goldmark.Extender {
 	case SDefList:
 		return extension.DefinitionList
 	case STypographer:
-		return extension.Typographer
+		return s.typographer()
 	case SCJKSimple:
 		return s.cjk(extension.EastAsianLineBreaksSimple, true)
 	case SCJKSimpleNoEsc:
@@ -168,8 +208,8 @@ func (s Spec) Extenders() []goldmark.Extender {
 		return out
 	}
 	gfm := func() []goldmark.Extender {
-		if s.PinTableAlign {
-			return []goldmark.Extender{extension.Linkify, s.table(), extension.Strikethrough, extension.TaskList}
+		if s.PinTableAlign || s.Rich {
+			return []goldmark.Extender{s.linkify(), s.table(), extension.Strikethrough, extension.TaskList}
 		}
 		return []goldmark.Extender{extension.GFM}
 	}
@@ -183,7 +223,7 @@ func (s Spec) Extenders() []goldmark.Extender {
 	case ExtFootnote:
 		return []goldmark.Extender{s.footnote()}
 	case ExtTypographer:
-		return []goldmark.Extender{extension.Typographer}
+		return []goldmark.Extender{s.typographer()}
 	case ExtCJKSimple:
 		return []goldmark.Extender{s.cjk(extension.EastAsianLineBreaksSimple, false)}
 	case ExtCJKCSS3:
@@ -192,7 +232,7 @@ func (s Spec) Extenders() []goldmark.Extender {
 		return []goldmark.Extender{s.cjk(extension.EastAsianLineBreaksNone, true)}
 	case ExtAll:
 		out := gfm()
-		out = append(out, extension.DefinitionList, s.footnote(), extension.Typographer,
+		out = append(out, extension.DefinitionList, s.footnote(), s.typographer(),
 			s.cjk(extension.EastAsianLineBreaksSimple, true))
 		return out
 	}
@@ -279,6 +319,19 @@ func All() []Spec {
 				out = append(out, Spec{Ext: e, AutoHeadingID: po&1 != 0, Attribute: po&2 != 0,
 					Unsafe: rf&1 != 0, XHTML: rf&2 != 0, HardWraps: rf&4 != 0})
 			}
+		}
+	}
+	return out
+}
+
+// RichSpecs returns configurations whose extensions are built with non-default options: the four extension sets that
+// have options x {no parser option, both} x {safe HTML5, unsafe XHTML+HardWraps}.
+func RichSpecs() []Spec {
+	var out []Spec
+	for _, e := range []int{ExtGFM, ExtFootnote, ExtTypographer, ExtAll} {
+		for _, po := range []bool{false, true} {
+			out = append(out, Spec{Ext: e, Rich: true, AutoHeadingID: po, Attribute: po},
+				Spec{Ext: e, Rich: true, AutoHeadingID: po, Attribute: po, Unsafe: true, XHTML: true, HardWraps: true})
 		}
 	}
 	return out
@@ -372,6 +425,8 @@ func Parse(name string) (Spec, bool) {
 			s.PinTableAlign, s.TableAlign = true, extension.TableCellAlignDefault
 		case strings.HasPrefix(p, "fnpfx="):
 			s.FootnotePfx = p[6:]
+		case p == "rich":
+			s.Rich = true
 		default:
 			return s, false
 		}
